@@ -15,6 +15,10 @@ RULE = ('the real Rmcp.establish_session / send_and_receive_raw x n / close_sess
         'bytes, ANONYMOUS LOGIN (the empty user name with the empty password, given as \'\' and as b\'\', against all 32 '
         'capability subsets; each of the two empty alone against the 12 subsets that offer none next to MD5 / password; '
         'also over two sessions, with retransmissions and with the clean-up close), '
+        'the credential FORM as a dimension of its own: user name None / \'\' / b\'\' / str / bytes / 16 bytes x password '
+        'None / \'\' / b\'\' / str / bytes / 16 bytes (None, None = Session() untouched, what create_connection() hands '
+        'out) x all 32 capability subsets, also over two sessions and with a fault and the clean-up close: the handshake '
+        'is that of the BYTES the objects stand for, never a Python TypeError / AttributeError, '
         'privilege levels 2..5, 0..8 subsequent requests, a second session on the same Session object, '
         'silence or an error completion code injected at every datagram of the handshake, a request and the '
         'close, and max_retries 0..3 with datagrams lost (Spec.BmcSession.stepLost: the monitor counts them, the BMC '
@@ -82,10 +86,15 @@ ASSUMPTIONS = [
     'when the BMC offers only types the library does not implement (MD2 and/or OEM) the library still asks for a challenge '
     'for that (offered) type and raises NotSupportedError when packing Activate Session (documented in get_max_auth_type); '
     'this is accepted: the BMC does not object, the temporary session id expires',
-    'NOT generated (outside the quantifier / boundary, reported by the audit as observations): no user name configured '
-    '(set_auth_type_user never called: user None with MD5 / password raises AttributeError in _padd_password), non-ASCII '
-    'user names (padded to 16 characters, not 16 bytes), a bytes user name, requests longer than 255 bytes (consume a '
-    'sequence number without being sent), OSError from sendto',
+    'credential form (Model/SessionCred.lean): None stands for the zero-length user name / password (IPMI null user, null '
+    'password = sixteen zero bytes); a str stands for its UTF-8 encoding, user names are generated as ASCII; the two '
+    'as-shipped failures on the FORM (variants np / bu, probed) happen before the credential bytes exist, so the '
+    'byte-level model is not run for those rounds (counted as byte-level-tie-skipped) - Cred.failsAfter is compared instead',
+    'NOT generated (outside the quantifier / boundary, reported by the audit as observations): non-ASCII '
+    'user names (as shipped padded to 16 characters, not 16 bytes), requests longer than 255 bytes (consume a '
+    'sequence number without being sent), OSError from sendto; an answer that arrives LATE at a handshake step and is '
+    'taken for the answer of the next establish_session (ping() does not drain the socket; findings/c06/round3/finding_3): '
+    'the quantifier has "an error reply or silence at each step", a late answer is neither',
 ]
 TRUSTED = ['harness/translate/rmcp.py', 'harness/translate/session.py', 'harness/sim/fakesock.py', 'harness/props/c06.py']
 
@@ -198,11 +207,68 @@ def _probe_used_objects():
     return rs, ka
 
 
+def _cred(sc):
+    """The credential OBJECTS handed to the library - the FORM is a generator dimension: user None / str / bytes
+    (sc['ukind'], default str), password None / str / bytes (sc['pw']['kind']).  None is the library default of
+    Session() and the null user / null password of IPMI (the anonymous login)."""
+    uk = sc.get('ukind', 'str')
+    user = None if uk == 'none' else (sc['user'].encode() if uk == 'bytes' else sc['user'])
+    k = sc['pw']['kind']
+    pw = None if k == 'none' else (bytes.fromhex(sc['pw']['hex']) if k == 'bytes' else sc['pw']['text'])
+    return user, pw
+
+
+def _pwbytes(pw):
+    """the password BYTES a credential form stands for (None: the null password, zero bytes)"""
+    return b'' if pw['kind'] == 'none' else (bytes.fromhex(pw['hex']) if pw['kind'] == 'bytes' else pw['text'].encode())
+
+
+def _configure(session, sc):
+    user, pw = _cred(sc)
+    if user is None and pw is None:
+        return                                # Session() as pyipmi.create_connection() hands it out
+    session.set_auth_type_user(user, pw)
+
+
+def _probe_cred_forms():
+    """(np, bu): np 'i' if the password None is packed as the null password (sixteen zero bytes), 's' if
+    IpmiMsg._padd_password raises AttributeError (as shipped); bu 'i' if _get_session_challenge accepts a user name
+    given as bytes, 's' if it raises TypeError before anything is sent (as shipped)."""
+    np_, bu = 's', 's'
+    try:
+        from pyipmi.interfaces import rmcp as R
+        from pyipmi.session import Session
+        try:
+            if R.IpmiMsg(Session())._padd_password() == bytes(16):
+                np_ = 'i'
+        except Exception:  # noqa
+            pass
+        rm = R.Rmcp(keep_alive_interval=0, max_retries=0)
+        sent = []
+        rm._sock = FakeSock(responder=lambda d: (sent.append(d), [])[1])
+        session = Session()
+        session.set_session_type_rmcp('192.0.2.1', 623)
+        session.set_auth_type_user(b'probe', b'probe')
+        rm.host, rm.port = '192.0.2.1', 623
+        try:
+            rm._get_session_challenge(session)
+        except TypeError:
+            pass
+        except Exception:  # noqa
+            pass
+        if sent and b'probe'.ljust(16, b'\x00') in sent[0]:
+            bu = 'i'
+    except Exception:  # noqa
+        pass
+    return np_, bu
+
+
 def _variants(drv):
     """which variant of each as-shipped / intended place of the model the working tree has (probed on the real code)"""
     rs, ka = _probe_used_objects()
+    np_, bu = _probe_cred_forms()
     return {'pref': _probe_pref(), 'er': _probe_empty(), 'cg': _probe_close_guard(), 'na': _probe_noauth(drv),
-            'rs': rs, 'ka': ka}
+            'rs': rs, 'ka': ka, 'np': np_, 'bu': bu}
 
 
 # ----------------------------------------------------------------- one scenario on the real code
@@ -216,8 +282,7 @@ def run_real(drv, sc):
                 quirks_cfg={'rmcp_ignore_sdu_length': bool(sc.get('ignore', 0))})
     session = Session()
     session.set_session_type_rmcp('192.0.2.1', 623)
-    pw = bytes.fromhex(sc['pw']['hex']) if sc['pw']['kind'] == 'bytes' else sc['pw']['text']
-    session.set_auth_type_user(sc['user'], pw)
+    _configure(session, sc)
     session._priv_level = sc['priv']
     saved = R.random.randrange
     try:
@@ -288,7 +353,7 @@ def run_real(drv, sc):
 
 
 def _model_line(sc, rnd, rr, var):
-    pw = bytes.fromhex(sc['pw']['hex']) if sc['pw']['kind'] == 'bytes' else sc['pw']['text'].encode()
+    pw = _pwbytes(sc['pw'])
     reps = ' '.join('silent' if r is None else lean.hexs(r) for r in rr['replies'])
     s0 = rr['state0']
     return 'model %s %s %s %s %s %d %d %s %s %s %d %d %d %d %d %d %d %d %d %s' % (
@@ -403,8 +468,7 @@ def judge(ctx, drv, sc, var, tie=True, verbose=False):
         b = rnd['bmc']
         inject = dict((int(k), v) for k, v in rnd.get('inject', {}).items())
         conforming = (b['user'] == sc['user'] and b['priv'] == sc['priv'] and
-                      bytes.fromhex(b['pw']) == (bytes.fromhex(sc['pw']['hex']) if sc['pw']['kind'] == 'bytes'
-                                                 else sc['pw']['text'].encode()))
+                      bytes.fromhex(b['pw']) == _pwbytes(sc['pw']))
         if verbose:
             print(' round %d: max_retries %d, outcome %s; BMC %s' % (ri, sc.get('max_retries', 0), rr['outcome'], rr['bmc']))
             for i, (d, v) in enumerate(zip(rr['sent'], rr['verdicts'])):
@@ -421,8 +485,49 @@ def judge(ctx, drv, sc, var, tie=True, verbose=False):
         ctx.count('datagrams-lost', sum(1 for i in range(len(rr['sent'])) if inject.get(i) == 'silent'))
         ctx.count('retransmissions', sum(1 for i in range(1, len(rr['sent']))
                                          if inject.get(i - 1) == 'silent' and _kind_of(rr['sent'][i]) == _kind_of(rr['sent'][i - 1])))
+        # ---- credential FORM: whatever form the user name and the password are configured in (None - the library
+        # default, the null user / null password -, str, bytes; 0..16 bytes), the handshake completes or ends in an
+        # error of the library's own (NotSupportedError when nothing offered is implemented, the injected fault) -
+        # never in a Python TypeError / AttributeError raised while a request is being built
+        form_error = None
+        if rr['stage'] == 'establish' and rr['outcome'] in ('py:TypeError', 'py:AttributeError', 'py:UnicodeDecodeError',
+                                                            'py:UnicodeEncodeError'):
+            uk, pk = sc.get('ukind', 'str'), sc['pw']['kind']
+            if rr['outcome'] == 'py:AttributeError' and (pk == 'none' or uk == 'none'):
+                form_error = 'null-credentials'
+            elif rr['outcome'] == 'py:TypeError' and uk == 'bytes':
+                form_error = 'bytes-username'
+            else:
+                form_error = 'user-%s:password-%s' % (uk, pk)
+            kinds = [STEP_OF.get(_kind_of(d), '?') for d in rr['sent'][:rr['n_main']]]
+            ctx.violate('C06:handshake:python-error:%s' % form_error,
+                        'user name %r, password %r (%s), BMC offers support=0x%02x: establish_session ends with %s after %s; '
+                        '%s is never sent' % (_cred(sc)[0], _cred(sc)[1],
+                                              'the default Session(): the anonymous login' if (uk, pk) == ('none', 'none')
+                                              else 'set_auth_type_user', b['caps'], rr['outcome'][3:],
+                                              ', '.join(kinds) or 'nothing', STEP_NAMES[min(len(kinds), 4)]), case,
+                        expected='the handshake of the user name / password BYTES these objects stand for (a null '
+                                 'password is sixteen zero bytes)', observed=rr['outcome'])
+            ctx.count('python-error:' + form_error)
+        # the Lean model of the client works on the credential BYTES; the two as-shipped places that fail on the FORM
+        # before the bytes exist (probed: var np / bu) are modelled apart (Model/SessionCred.lean), no byte-level tie then
+        known_form = (form_error == 'null-credentials' and var.get('np') == 's') or \
+                     (form_error == 'bytes-username' and var.get('bu') == 's')
+        if known_form:
+            ctx.count('byte-level-tie-skipped:as-shipped-credential-form')
+        # ---- credential-form model (Cred.failsAfter, variants as probed): where, if anywhere, an answered handshake ends
+        # in a Python error because of the FORM - compared with the real code
+        if tie and not inject and (form_error or rr['outcome'] == 'ok'):
+            a = int(rr['state'].split()[0])
+            m = drv.ask('cred %s %s %s %s %s %s %d' % (
+                var.get('np', 's'), var.get('bu', 's'), sc.get('ukind', 'str'), lean.hexs(sc['user'].encode()),
+                sc['pw']['kind'], lean.hexs(_pwbytes(sc['pw'])), 0 if a == 256 else a))
+            got = '%d %s' % (rr['n_main'], rr['outcome']) if form_error else 'none'
+            ctx.count('credential-form-compared')
+            if m != got:
+                ctx.disagree('credential-form', case, m, got)
         # ---- model tie: outcome, every datagram byte for byte, final session state
-        if tie:
+        if tie and not known_form:
             m = drv.ask(_model_line(sc, rnd, rr, var))
             parts = m.split(' | ')
             if len(parts) != 4:
@@ -443,6 +548,8 @@ def judge(ctx, drv, sc, var, tie=True, verbose=False):
                     ctx.disagree('lifecycle:state', case, parts[2], rr['state'])
                 if parts[3] != (rr['cleanup'] or '-'):
                     ctx.disagree('lifecycle:clean-up close', case, parts[3], rr['cleanup'] or '-')
+        if form_error:
+            continue
         # ---- property: the BMC never objects
         offered_impl = [a for a in impl if b['caps'] >> CAP_BITS.get(a, 7) & 1]
         offered_any = [a for a in CAP_BITS if b['caps'] >> CAP_BITS[a] & 1]
@@ -886,11 +993,11 @@ def _user(rng, n=None):
 
 
 def _pwhex(pw):
-    return pw['hex'] if pw['kind'] == 'bytes' else pw['text'].encode().hex()
+    return _pwbytes(pw).hex()
 
 
 def _scenario(rng, caps=None, inSeq0=None, n=None, user=None, pw=None, priv=None, inject=None, rounds=1, ignore=0,
-              max_retries=0, closes=1, rcloses=None):
+              max_retries=0, closes=1, rcloses=None, ukind=None):
     user = _user(rng) if user is None else user
     pw = _pw(rng) if pw is None else pw
     priv = rng.choice([2, 3, 4, 4, 5]) if priv is None else priv
@@ -905,8 +1012,11 @@ def _scenario(rng, caps=None, inSeq0=None, n=None, user=None, pw=None, priv=None
                    'inject': (inject[ri] if isinstance(inject, list) else inject) or {}})
         if rcloses is not None:
             rs[-1]['closes'] = rcloses[ri]
-    return {'op': 'session', 'user': user, 'pw': pw, 'priv': priv, 'ignore': ignore, 'max_retries': max_retries,
-            'closes': closes, 'rounds': rs}
+    sc = {'op': 'session', 'user': user, 'pw': pw, 'priv': priv, 'ignore': ignore, 'max_retries': max_retries,
+          'closes': closes, 'rounds': rs}
+    if ukind is not None:
+        sc['ukind'] = ukind
+    return sc
 
 
 def _scenarios(rng, tier):
@@ -944,6 +1054,32 @@ def _scenarios(rng, tier):
                 out.append(('empty-user', _scenario(rng, caps=c, user='', pw=_pw(rng, rng.randrange(1, 17)))))
                 out.append(('empty-password', _scenario(rng, caps=c, user=_user(rng, rng.randrange(1, 17)),
                                                         pw=empty_pw[i % 2])))
+    # CREDENTIAL FORM x capability subset: the user name and the password, independently, as None (the library default;
+    # both None = Session() untouched, the anonymous login), '' / b'', a str, a bytes object, 16 bytes long - against
+    # all 32 subsets.  What goes on the wire depends on the BYTES only.
+    def uforms():
+        return [('none', ''), ('str', ''), ('bytes', ''), ('str', _user(rng, rng.randrange(1, 16))),
+                ('bytes', _user(rng, rng.randrange(1, 16))), ('str', _user(rng, 16)), ('bytes', _user(rng, 16))]
+
+    def pforms():
+        return [{'kind': 'none'}, {'kind': 'str', 'text': ''}, {'kind': 'bytes', 'hex': ''},
+                {'kind': 'str', 'text': _user(rng, rng.randrange(1, 16))},
+                {'kind': 'bytes', 'hex': bytes(rng.randrange(256) for _ in range(rng.randrange(1, 16))).hex()},
+                {'kind': 'str', 'text': _user(rng, 16)},
+                {'kind': 'bytes', 'hex': bytes(rng.randrange(256) for _ in range(16)).hex()}]
+    for c in subsets:
+        for uk, u in uforms():
+            for pf in pforms():
+                out.append(('credential-form', _scenario(rng, caps=c, user=u, ukind=uk, pw=pf, n=rng.randrange(0, 2))))
+    for c in (0x05, 0x11, 0x14, 0x15, 0x37):
+        for uk, pf in (('none', {'kind': 'none'}), ('bytes', {'kind': 'bytes', 'hex': '7077'}),
+                       ('bytes', {'kind': 'none'}), ('none', {'kind': 'str', 'text': 'pw'})):
+            u = '' if uk == 'none' else _user(rng, rng.randrange(1, 17))
+            out.append(('credential-form-two-sessions', _scenario(rng, caps=c, user=u, ukind=uk, pw=pf, rounds=2,
+                                                                  max_retries=rng.choice([0, 2]))))
+            out.append(('credential-form-fault-then-cleanup',
+                        _scenario(rng, caps=c, user=u, ukind=uk, pw=pf, n=1,
+                                  inject={str(rng.choice([2, 3, 4, 5])): 'silent'}, closes='c')))
     # ... on objects that carry a second session, with retransmissions, with the clean-up close after a fault
     for c in (0x05, 0x11, 0x15, 0x37):
         out.append(('anonymous-two-sessions', _scenario(rng, caps=c, user='', pw=rng.choice(empty_pw), rounds=2,
